@@ -2416,3 +2416,20 @@ def _calls_in(n):
                     for d in c:
                         out += _calls_in(d)
     return out
+
+
+@rule('R04.10', ['C04', 'C01', 'C17'], floor=1, clause='nothing is received behind the peer\'s FIN: segment text is stored into the receive buffer only when no FIN had been received before this segment')
+def r04_10(ctx):
+    F = ctx.F
+    SOCK = 'socket::tcp::Socket'
+    RB = 'storage::ring_buffer::RingBuffer'
+    b = ctx.method(SOCK, 'process')
+    sites = [x[0] for x in b.calls() if (b.callee_name(x[1]) or '').startswith(RB) and (b.callee_name(x[1]) or '').rsplit('::', 1)[-1] in ('write_unallocated', 'enqueue_unallocated')]
+    ctx.need(sites, "receive-buffer writes in tcp::Socket::process")
+    nofin = lambda f: f[0] == 'bool' and f[2] is False and is_field(f[1], SOCK, 'rx_fin_received')
+    bad = unguarded(F, b, sites, nofin)
+    if bad:
+        ctx.bad("process|data-after-fin", "process() stores segment text into the receive buffer without having established that the peer's FIN had not been received before: octets sent "
+                "(or forged) behind the FIN are delivered to the application ahead of the end-of-stream indication", body=b, bb=bad[0][0])
+    else:
+        ctx.ok(('process', 'no data after FIN'), sample=dict(fn='process', guard='rx_fin_received was false when the segment arrived'))
